@@ -26,6 +26,7 @@ type entry struct {
 	label string // goroutine label + "@" + point
 	glab  string // goroutine label
 	ch    chan struct{}
+	low   bool // released only when nothing but background work is runnable
 }
 
 type Violation = rt.Violation
@@ -250,11 +251,18 @@ func (s *Sim) Label() string {
 // scheduler releases it.
 func (s *Sim) Park(point string) { s.park("", point, false) }
 
+// Settle parks the calling task until every other goroutine (stragglers of
+// the request it just finished) has run to completion or blocked: a settling
+// entry is only released when nothing but the remover is runnable.
+func (s *Sim) Settle() { s.parkX("", "settle", false, true) }
+
 // ParkAs parks under an explicit goroutine label (pool workers are labelled
 // by work item, not by worker).
 func (s *Sim) ParkAs(glabel, point string) { s.park(glabel, point, false) }
 
-func (s *Sim) park(glabel, point string, isYield bool) {
+func (s *Sim) park(glabel, point string, isYield bool) { s.parkX(glabel, point, isYield, false) }
+
+func (s *Sim) parkX(glabel, point string, isYield, low bool) {
 	gid := Goid()
 	s.mu.Lock()
 	if s.closed || gid == s.sched {
@@ -268,7 +276,7 @@ func (s *Sim) park(glabel, point string, isYield bool) {
 	if glabel == "" {
 		glabel = s.labelOf(gid)
 	}
-	e := &entry{label: glabel + "@" + point, glab: glabel, ch: make(chan struct{})}
+	e := &entry{label: glabel + "@" + point, glab: glabel, ch: make(chan struct{}), low: low}
 	s.parked = append(s.parked, e)
 	s.mu.Unlock()
 	<-e.ch
@@ -485,21 +493,34 @@ func (s *Sim) loop(drain bool) RunResult {
 
 func (s *Sim) pick(c []*entry) *entry {
 	// Policy filters.
-	if s.Policy.StarveRemover || s.Policy.RemoverFirst {
-		var rem, oth []*entry
-		for _, e := range c {
-			if isRemover(e.glab) {
-				rem = append(rem, e)
-			} else {
-				oth = append(oth, e)
-			}
-		}
-		if s.Policy.StarveRemover && len(oth) > 0 {
-			c = oth
-		} else if s.Policy.RemoverFirst && len(rem) > 0 {
-			c = rem
+	var rem, normal, low []*entry
+	for _, e := range c {
+		switch {
+		case isRemover(e.glab):
+			rem = append(rem, e)
+		case e.low:
+			low = append(low, e)
+		default:
+			normal = append(normal, e)
 		}
 	}
+	switch {
+	case s.Policy.RemoverFirst && len(rem) > 0:
+		c = rem
+	case len(normal) > 0:
+		c = normal
+		if !s.Policy.StarveRemover {
+			c = append(c, rem...)
+		}
+	case len(low) > 0:
+		c = low
+		if !s.Policy.StarveRemover {
+			c = append(c, rem...)
+		}
+	default:
+		c = rem
+	}
+	sort.SliceStable(c, func(i, j int) bool { return c[i].label < c[j].label })
 	if len(c) == 1 {
 		return c[0]
 	}
